@@ -229,6 +229,18 @@ impl Pager {
 
         let mut meta_page = [0u8; PAGE_SIZE];
         read_page_raw(&file, META_PAGE_ID, &mut meta_page)?;
+        if meta_page.iter().all(|b| *b == 0) {
+            // The file was created and sized, but the process died before the header was
+            // written: nothing was ever stored in it, so finish the initialisation.
+            let mut pager = Self {
+                path,
+                file,
+                meta: Meta::new(),
+                bitmap: Bitmap::new(),
+            };
+            pager.flush_meta_and_bitmap()?;
+            return Ok(pager);
+        }
         let meta = Meta::decode_page(&meta_page)?;
 
         let mut bitmap_page = [0u8; PAGE_SIZE];
